@@ -75,6 +75,8 @@ func runC08(c *Ctx, r *Report) {
 	c04r9(c, r) // convergence: a merger cached under another configuration must not be served
 	c08r11(c, r)
 	c08r12(c, r)
+	c08r13(c, r)
+	c08r14(c, r)
 	c01r3(c, r) // what may be cached / narrowed: a cached list for another term kind is a stale list
 	// ---------------- R4 ----------------
 	r.rule("C08-R4", "A (path conditions)", "P1",
